@@ -22,8 +22,7 @@ def outEq (o : Out) (g : Gen.HdrOut) : Bool :=
   | .ok v t m p s h pos, .ok v' t' m' p' s' h' pos' =>
     v == v' && t.map Int.ofNat == t' && m == m' && p == p' && s.map Int.ofNat == s' && h.map Int.ofNat == h' && pos == pos'
   | .importError, .importError => true
-  | .escaped "dropbox", .escaped _ => true        -- fix_dropbox_pyc is outside this Model
-  | .escaped "dropbox", _ => true
+  | .dropbox, _ => true                           -- fix_dropbox_pyc is outside this Model
   | .escaped a, .escaped b => a == b
   | _, _ => false
 
